@@ -21,7 +21,7 @@ def _reexec_with_hashseed():
     if os.environ.get("PYTHONHASHSEED") != "0":
         env = dict(os.environ)
         env["PYTHONHASHSEED"] = "0"
-        os.execve(sys.executable, [sys.executable] + sys.argv, env)
+        os.execve(sys.executable, [sys.executable, "-m", "nixsim.cli"] + sys.argv[1:], env)
 
 
 def load_known():
